@@ -117,6 +117,7 @@ def run_retry(mutate=None, adaptive=True, prefixes=("C12.",)):
         s.gamma, s.u = SR(R("gamma")), SR(R("u"))
         ops = type("Ops", (), {})()
         ops.psi_laplacian = object()
+        ops.mu_laplacian = object()       # the scalar Laplacian of the real class (no link variables, no pinned rows): never the operator of the psi step
         s.operators = ops
         m = s.options.adaptive_time_step_multiplier
         dt_in = SR(R("dt_in"))
